@@ -39,6 +39,10 @@ fn emit(v: &mut Vec<u8>, i: Insn) {
 pub struct Tune {
     pub n: u32,
     pub fill: [u32; 3],
+    /// the program runs under slow bus settings and *ends* with its most expensive instruction (a long-word load
+    /// through @(d:24,ERn) in slow DRAM: 98 states, charged 294 in the run loop - more than fits the 8-bit slices
+    /// the peripherals are fed in): the exit address is the address right behind it
+    pub heavy_end: bool,
 }
 
 pub fn build_guest(e: &mut Ent) -> Guest {
@@ -66,10 +70,11 @@ pub fn build_guest_tuned(e: &mut Ent, tune: Option<&Tune>) -> Guest {
         emit(&mut c, Insn::Store { sz: Sz::B, s: 14, ea: Ea::A24(a) });
     }
     // optional slow-bus prologue: more wait states for the DRAM area / 3-state access for area 7
-    if e.chance(1, 4) {
+    let heavy_end = tune.map(|t| t.heavy_end).unwrap_or(false);
+    if e.chance(1, 4) || heavy_end {
         features.push("slow bus prologue");
         for (reg, val) in [(0xfee023u32, 0xcf | 0x30), (0xfee022, e.u8()), (0xfee021, 0xfb | (e.u8() & 0x04))] {
-            if e.chance(2, 3) {
+            if e.chance(2, 3) || (heavy_end && reg == 0xfee023) {
                 emit(&mut c, Insn::MovImm { sz: Sz::B, imm: val as u32, d: 14 });
                 emit(&mut c, Insn::Store { sz: Sz::B, s: 14, ea: Ea::A24(reg) });
             }
@@ -238,7 +243,7 @@ pub fn build_guest_tuned(e: &mut Ent, tune: Option<&Tune>) -> Guest {
     }
     // a burst of messages as the very last thing the program does: a port (all bits outputs) toggled n
     // times, one ioport message each - whatever is still queued when the run ends must not be lost
-    if e.chance(1, 4) {
+    if e.chance(1, 4) && !heavy_end {
         features.push("message burst right before the end");
         let p = 1 + e.below(11);
         let n = e.pick(&[3u32, 16, 64, 200, 255]);
@@ -263,7 +268,7 @@ pub fn build_guest_tuned(e: &mut Ent, tune: Option<&Tune>) -> Guest {
             _ => emit(&mut c, Insn::Store { sz: Sz::B, s: 9, ea: Ea::A24(0xffffee) }),      // unmapped write
         }
     }
-    if let (Some((vec, tcora)), false) = (end_event, fails) {
+    if let (Some((vec, tcora)), false) = (end_event, fails || heavy_end) {
         // the guest sets the counter a few ticks before its event (compare match A / overflow), so that the request
         // is raised by one of the last instructions - now and then by the very last one: then it is pending, unmasked,
         // at the moment PC reaches the exit address (the run ends there all the same)
@@ -274,8 +279,16 @@ pub fn build_guest_tuned(e: &mut Ent, tune: Option<&Tune>) -> Guest {
         emit(&mut c, Insn::Store { sz: Sz::B, s: 14, ea: Ea::A8(0x88) });
     }
     emit(&mut c, Insn::MovImm { sz: Sz::L, imm: e.below(256), d: 0 }); // exit code
-    let exit = c.len() as u32 + 4;
-    emit(&mut c, Insn::Jmp(JTarget::Abs(BASE + exit)));
+    let exit = if heavy_end {
+        features.push("last instruction charged more than 255 states");
+        emit(&mut c, Insn::MovImm { sz: Sz::L, imm: BASE, d: 6 });
+        emit(&mut c, Insn::Load { sz: Sz::L, ea: Ea::D24(6, 0x20), d: 3 });
+        c.len() as u32
+    } else {
+        let exit = c.len() as u32 + 4;
+        emit(&mut c, Insn::Jmp(JTarget::Abs(BASE + exit)));
+        exit
+    };
     assert!(c.len() < handler_off as usize);
     // handler and leaf
     c.resize(handler_off as usize, 0);
@@ -580,7 +593,7 @@ pub fn run_b(g: &Guest, tag: &str, max_steps: u64) -> Result<(Machine, Final, BI
 pub fn tuned_guest(raw: &[u32], variant: u32, tag: &str) -> Option<Guest> {
     let base_n = 2000u32;
     let probe = |n: u32| -> Option<(u64, u64)> {
-        let g = build_guest_tuned(&mut Ent::new(raw), Some(&Tune { n, fill: [0, 0, 0] }));
+        let g = build_guest_tuned(&mut Ent::new(raw), Some(&Tune { n, fill: [0, 0, 0], heavy_end: false }));
         let (_, f, info) = run_b(&g, tag, 3_000_000).ok()?;
         if f.result.is_err() {
             return None;
@@ -640,7 +653,7 @@ pub fn tuned_guest(raw: &[u32], variant: u32, tag: &str) -> Option<Guest> {
                         if n > 3_000_000 {
                             return None;
                         }
-                        let tune = Tune { n: n as u32, fill: [(rest / fills[0]) as u32, b as u32, d as u32] };
+                        let tune = Tune { n: n as u32, fill: [(rest / fills[0]) as u32, b as u32, d as u32], heavy_end: false };
                         return Some(build_guest_tuned(&mut Ent::new(raw), Some(&tune)));
                     }
                 }
@@ -651,6 +664,72 @@ pub fn tuned_guest(raw: &[u32], variant: u32, tag: &str) -> Option<Guest> {
         }
         iters -= 1;
     }
+}
+
+/// Variant 3: slow bus, the program ends with its 294-state instruction, and the tail is solved - with the
+/// fillers' charges under this guest's bus settings measured by probing runs - so that a sync threshold falls
+/// *inside* that instruction, at a drawn offset (in its first 255 states or behind them).
+pub fn tuned_heavy_guest(raw: &[u32], tag: &str) -> Option<Guest> {
+    let base_n = 2000u32;
+    let probe = |n: u32, fill: [u32; 3]| -> Option<(u64, u64)> {
+        let g = build_guest_tuned(&mut Ent::new(raw), Some(&Tune { n, fill, heavy_end: true }));
+        let (_, f, info) = run_b(&g, tag, 3_000_000).ok()?;
+        if f.result.is_err() {
+            return None;
+        }
+        Some((f.total, info.last_charge))
+    };
+    let (t0, last) = probe(base_n, [0, 0, 0])?;
+    if last <= 255 {
+        return None;
+    }
+    let (t1, _) = probe(base_n + 1000, [0, 0, 0])?;
+    if t1 <= t0 || (t1 - t0) % 1000 != 0 {
+        return None;
+    }
+    let c = (t1 - t0) / 1000;
+    let mut f = [0u64; 3];
+    for i in 0..3 {
+        let mut fill = [0u32; 3];
+        fill[i] = 1;
+        f[i] = probe(base_n, fill)?.0.checked_sub(t0)?;
+        if f[i] == 0 {
+            return None;
+        }
+    }
+    let k = (t0 + 400 * c) / SYNC + 1;
+    // the threshold k*SYNC lies `off` states behind the start of the last instruction, 0 < off <= last
+    let off = 1 + (raw.get(7).copied().unwrap_or(0) as u64 % last);
+    // total = k*SYNC - off + last
+    for adj in 0..64u64 {
+        let goal = (k * SYNC + last).checked_sub(((off + adj - 1) % last) + 1)?;
+        let need = goal.checked_sub(t0)?;
+        let max_fill = f[0] * 40 + f[1] * 8 + f[2] * 8;
+        let mut iters = need.saturating_sub(max_fill.min(need)) / c;
+        while iters * c <= need {
+            let r = need - iters * c;
+            if r > max_fill {
+                iters += 1;
+                continue;
+            }
+            for b in 0..8u64 {
+                for d in 0..8u64 {
+                    if let Some(rest) = r.checked_sub(f[1] * b + f[2] * d) {
+                        if rest % f[0] == 0 && rest / f[0] < 40 {
+                            let n = base_n as u64 + iters;
+                            if n > 3_000_000 {
+                                return None;
+                            }
+                            let tune = Tune { n: n as u32, fill: [(rest / f[0]) as u32, b as u32, d as u32], heavy_end: true };
+                            return Some(build_guest_tuned(&mut Ent::new(raw), Some(&tune)));
+                        }
+                    }
+                }
+            }
+            iters += 1;
+        }
+    }
+    None
 }
 
 fn same_memory(a: &Cpu, b: &Cpu) -> Option<String> {
@@ -870,7 +949,9 @@ pub fn run(ctx: &Ctx) -> i32 {
             // every third case: the total is placed exactly at a sync threshold (crossed by the last
             // instruction / exact multiple / just below)
             let g = if kc.get() % 3 == 0 {
-                match tuned_guest(raw, (kc.get() / 3) % 3, &format!("{}t", tag)) {
+                let variant = (kc.get() / 3) % 4;
+                let tuned = if variant == 3 { tuned_heavy_guest(raw, &format!("{}t", tag)) } else { tuned_guest(raw, variant, &format!("{}t", tag)) };
+                match tuned {
                     Some(g) => g,
                     None => build_guest(&mut Ent::new(raw)),
                 }
